@@ -195,18 +195,12 @@ func (b *Bridge) GetPU(rv reflect.Value, rec string) *PU {
 	return out
 }
 
+// classifyPUErr: a refusal is recognised by the error's type and names the field; which of the
+// checker's rules fired is in the message text only, and no property speaks about that text.
 func classifyPUErr(err error) (string, bool) {
 	var ie *patch.IllegalPartialUpdateError
 	if errors.As(err, &ie) {
-		switch {
-		case strings.HasPrefix(ie.Message, "Cannot delete/update"):
-			return "err pu-excluded " + hexs(ie.Field), true
-		case strings.HasPrefix(ie.Message, "Only one of"):
-			return "err pu-conflict " + hexs(ie.Field), true
-		case strings.HasPrefix(ie.Message, "Field cannot be deleted"):
-			return "err pu-cannot-delete " + hexs(ie.Field), true
-		}
-		return "err pu-other " + hexs(ie.Message), true
+		return "err pu " + hexs(ie.Field), true
 	}
 	return "", false
 }
@@ -263,7 +257,7 @@ func (b *Bridge) decodePU1(rec string, data []byte, excl []string, ignore int) s
 	panicked, pv := hx.Recover(func() {
 		r, err := readerFor("json", data, excl, ignore)
 		if err != nil {
-			outcome = "err syntax"
+			outcome = "err other"
 			return
 		}
 		p := reflect.ValueOf(gen.NewPU[rec]())
@@ -523,8 +517,8 @@ func (x *runner) runPatchC11() {
 			}
 			x.ask(op, impl, "C11 puenc")
 			if conflict {
-				if !strings.HasPrefix(impl, "err pu-conflict") {
-					r.OracleFail(hx.Case{Sig: "C11 partial update with two operations on one field was encoded", Op: op, Impl: impl, Expected: "err pu-conflict …"})
+				if !strings.HasPrefix(impl, "err pu ") {
+					r.OracleFail(hx.Case{Sig: "C11 partial update with two operations on one field was encoded", Op: op, Impl: impl, Expected: "err pu <field>"})
 				}
 			} else if data == nil {
 				r.OracleFail(hx.Case{Sig: "C11 valid partial update rejected by the encoder", Op: op, Impl: impl, Expected: "ok …"})
@@ -564,8 +558,8 @@ func (x *runner) runPatchC11() {
 			r.Count("pu-dec-ref")
 			x.ask(dop, dimpl, "C11 pudec ref")
 			if conflict {
-				if !strings.HasPrefix(dimpl, "err pu-conflict") {
-					r.OracleFail(hx.Case{Sig: "C11 patch document with two operations on one field was accepted", Op: dop, Impl: dimpl, Expected: "err pu-conflict …"})
+				if !strings.HasPrefix(dimpl, "err pu ") {
+					r.OracleFail(hx.Case{Sig: "C11 patch document with two operations on one field was accepted", Op: dop, Impl: dimpl, Expected: "err pu <field>"})
 				}
 			} else if want := "ok " + x.env.expectedPU(rec, pu).Canon(); dimpl != want {
 				r.OracleFail(hx.Case{Sig: classifyPUDiff(x.env, rec, pu, dimpl, want) + " (reference document)", Op: dop, Impl: dimpl, Expected: want})
@@ -595,8 +589,8 @@ func (x *runner) runPatchC11() {
 					r.Count("pu-delete-required")
 					r.Distinctive(dop)
 					x.ask(dop, dimpl, "C11 pudec delete required")
-					if !strings.HasPrefix(dimpl, "err pu-") {
-						r.OracleFail(hx.Case{Sig: "C11 patch document deleting a required field was accepted", Op: dop, Impl: dimpl, Expected: "err pu-cannot-delete …", Note: name})
+					if !strings.HasPrefix(dimpl, "err pu ") {
+						r.OracleFail(hx.Case{Sig: "C11 patch document deleting a required field was accepted", Op: dop, Impl: dimpl, Expected: "err pu <field>", Note: name})
 					}
 				}
 			}
@@ -712,8 +706,8 @@ func (x *runner) runPatchC07() {
 			}
 			x.ask(op, impl, "C07 puenc")
 			if touched {
-				if !strings.HasPrefix(impl, "err pu-excluded") {
-					r.OracleFail(hx.Case{Sig: "C07 partial update touching an excluded field was not refused on the client" + sigNote, Op: op, Impl: impl, Expected: "err pu-excluded …", Note: note})
+				if !strings.HasPrefix(impl, "err pu ") {
+					r.OracleFail(hx.Case{Sig: "C07 partial update touching an excluded field was not refused on the client" + sigNote, Op: op, Impl: impl, Expected: "err pu <field>", Note: note})
 				}
 			} else if data == nil {
 				r.OracleFail(hx.Case{Sig: "C07 partial update not touching any excluded field was refused" + sigNote, Op: op, Impl: impl, Expected: "ok …", Note: note})
@@ -732,7 +726,7 @@ func (x *runner) runPatchC07() {
 			r.OracleCases++
 			r.Count("pu-dec-excl")
 			x.ask(dop, dimpl, "C07 pudec")
-			rejected := strings.HasPrefix(dimpl, "err excluded") || strings.HasPrefix(dimpl, "err pu-excluded")
+			rejected := strings.HasPrefix(dimpl, "err excluded") || strings.HasPrefix(dimpl, "err pu ")
 			if (touched || carried) != rejected {
 				r.OracleFail(hx.Case{Sig: "C07 partial update document: rejection differs from 'carries an excluded field'" + sigNote, Op: dop, Impl: dimpl, Expected: fmt.Sprint("rejected=", touched || carried), Note: note})
 			}
